@@ -127,10 +127,21 @@ def parse(trace_path, roots):
             mu = _unfinished.match(rest)
             if mu:
                 pending[pid] = (mu.group(1), mu.group(2))
+                if mu.group(1) == "close":
+                    # the kernel releases the descriptor number when close() starts: another thread's openat can
+                    # return the same number before this call is reported as finished.  Forget the descriptor now.
+                    try:
+                        fdn, _ = _fd(_split_args(mu.group(2))[0])
+                        offs.pop(int(fdn), None)
+                    except (IndexError, ValueError):
+                        pass
+                    pending[pid] = ("close_done", mu.group(2))
                 continue
             mr = _resumed.match(rest)
             if mr:
                 name, first = pending.pop(pid, (mr.group(1), ""))
+                if name == "close_done":
+                    continue
                 rest = "%s(%s%s" % (name, first, mr.group(2))
             mc = _call.match(rest)
             if not mc:
@@ -155,6 +166,8 @@ def parse(trace_path, roots):
                 elif name == "close":
                     fdn, _ = _fd(a[0])
                     offs.pop(int(fdn), None)
+                elif name == "close_done":
+                    pass
                 elif name in ("dup", "dup2", "dup3"):
                     fdn, _ = _fd(a[0])
                     if int(fdn) in offs:
